@@ -65,26 +65,104 @@ def rule_R09_1(ctx):
     variants = prog.enum_variant_names(TOKEN)
     r.require_floor("Token variants", len(variants), 45)
     loops = f.natural_loops()
-    # the decision switch: a discriminant switch on a Token with many cases
-    best = None
-    for bb in range(len(f.blocks)):
-        if f.is_cleanup(bb) or f.term(bb)["k"] != "switch":
-            continue
-        info = f.switch_info(bb)
-        if info and info["kind"] == "discr" and info["enum"] == TOKEN:
-            if best is None or len(info["cases"]) > len(best[1]["cases"]):
-                best = (bb, info)
+    # the decision switch: a discriminant switch on a Token with many cases,
+    # in Lexer::next itself or in a bool-returning helper it consults
+    def big_switch(fn_):
+        best_ = None
+        for bb_ in range(len(fn_.blocks)):
+            if fn_.is_cleanup(bb_) or fn_.term(bb_)["k"] != "switch":
+                continue
+            info_ = fn_.switch_info(bb_)
+            if info_ and info_["kind"] == "discr" and info_["enum"] == TOKEN \
+                    and len(info_["cases"]) >= 10:
+                if best_ is None or len(info_["cases"]) > len(best_[1]["cases"]):
+                    best_ = (bb_, info_)
+        return best_
+    best = big_switch(f)
+    helper = None
     if best is None:
-        r.anchor_missing("switch on the previous token in Lexer::next")
-        return r
-    bb, info = best
-    table = {}
-    for v, tgt in info["cases"]:
-        table[v] = _classify_target(f, tgt, loops)
-    other = _classify_target(f, info["otherwise"], loops)
-    for v in variants:
-        if v not in table:
-            table[v] = other
+        for hf in prog.hand_fns():
+            if hf.module.startswith("lexer") and not hf.from_expansion and hf.locals \
+                    and hf.locals[0] == "bool" and big_switch(hf) is not None:
+                helper = hf
+        if helper is None:
+            r.anchor_missing("continuation table (switch on a Token) in the lexer")
+            return r
+        # helper table: variant -> set of returned constants
+        hb, hinfo = big_switch(helper)
+
+        def ret_consts(tgt):
+            outs = set()
+            seen_ = set()
+            st_ = [tgt]
+            while st_:
+                x = st_.pop()
+                if x in seen_:
+                    continue
+                seen_.add(x)
+                done = False
+                for s_ in helper.stmts(x):
+                    if s_[0] == "=" and s_[1][0] == 0 and not s_[1][1] and s_[2][0] == "use":
+                        v_ = mir.const_val(s_[2][1])
+                        if isinstance(v_, bool):
+                            outs.add(v_)
+                            done = True
+                if not done:
+                    st_.extend(helper.succs(x))
+            return outs
+        htab = {}
+        for v, tgt in hinfo["cases"]:
+            htab[v] = ret_consts(tgt)
+        oth = ret_consts(hinfo["otherwise"])
+        for v in variants:
+            htab.setdefault(v, oth)
+        # the helper's result must decide, in Lexer::next, whether a
+        # terminator is emitted
+        ctrl = None
+        for c in f.calls():
+            if not c.is_ptr and c.res == helper.path and c.target is not None \
+                    and f.term(c.target)["k"] == "switch":
+                i2 = f.switch_info(c.target)
+                if i2 and i2["kind"] == "bool":
+                    ctrl = i2
+        r.inst("continuation table is in helper %s" % helper.path)
+        if ctrl is None:
+            r.fail("%s | table in %s does not control emission" % (f.path, helper.path.split("::")[-1]),
+                   "the continuation table lives in %s but its result does "
+                   "not decide, in Lexer::next, whether a statement "
+                   "terminator token is emitted or dropped: terminators "
+                   "(`;` as well as newline) after a continuation token are "
+                   "no longer discarded by this mechanism" % helper.path,
+                   where=mir.span_loc(f.span))
+            return r
+        t_true = ctrl["otherwise"]
+        t_false = None
+        for v, tgt in ctrl["cases"]:
+            if v is True:
+                t_true = tgt
+            if v is False:
+                t_false = tgt
+        if t_false is None:
+            t_false = ctrl["otherwise"]
+        k_true = _classify_target(f, t_true, loops)
+        k_false = _classify_target(f, t_false, loops)
+        table = {}
+        for v in variants:
+            ks = set()
+            for b_ in htab[v]:
+                ks |= (k_true if b_ else k_false)
+            table[v] = ks
+        info = ctrl
+        bb = c.target
+    else:
+        bb, info = best
+        table = {}
+        for v, tgt in info["cases"]:
+            table[v] = _classify_target(f, tgt, loops)
+        other = _classify_target(f, info["otherwise"], loops)
+        for v in variants:
+            if v not in table:
+                table[v] = other
     suppress = sorted(v for v, k in table.items() if k == {"suppress"})
     emit = sorted(v for v, k in table.items() if k == {"emit"})
     mixed = sorted(v for v, k in table.items() if k not in ({"suppress"}, {"emit"}))
@@ -113,7 +191,6 @@ def rule_R09_1(ctx):
                    "a line break after the documented continuation token %s "
                    "ends the statement" % v, where=mir.span_loc(info["raw"]["span"]))
     # start of input (no previous token) suppresses
-    cp = f.canon(info["place"])
     opt_sw = None
     for b2 in range(len(f.blocks)):
         if f.is_cleanup(b2) or f.term(b2)["k"] != "switch":
